@@ -380,7 +380,22 @@ type Res struct {
 	Panic bool
 }
 
+// BoundsClient is an optional client extension: it is told about every
+// indexing, slicing and allocation with a computed size.
+type BoundsClient interface {
+	OnBounds(x *Exec, st *State, fr *Frame, ins ssa.Instruction, kind string, base, lo, hi *Term)
+}
+
+// LoopInvClient is an optional client extension for loop invariants: it may
+// add assumptions about the havocked phi values at the loop head and is shown
+// the entry values (base case) and the back-edge values (inductive step).
+type LoopInvClient interface {
+	OnLoopHead(x *Exec, st *State, fr *Frame, loopID string, phis map[string]*Term)
+	OnLoopEdge(x *Exec, st *State, fr *Frame, loopID string, vals map[string]*Term, entry bool)
+}
+
 type Exec struct {
+	StrictConv bool // integer conversions that may change the value yield opaque terms
 	P        *Program
 	C        Client
 	MaxDepth int
@@ -1143,6 +1158,23 @@ func (x *Exec) execLoopUncached(fr *Frame, li *loopInfo, pred *ssa.BasicBlock, s
 				hs.setFact(tLt(lv, init), false)
 			}
 		}
+		loopID := funcKey(fr.fn) + "#b" + strconv.Itoa(li.header.Index)
+		if lc, ok := x.C.(LoopInvClient); ok {
+			pm := map[string]*Term{}
+			for _, ph := range phis {
+				pm[ph.Name()] = hf.env[ph]
+			}
+			if round == 0 {
+				em := map[string]*Term{}
+				for _, ph := range phis {
+					if v := entryPhi[ph]; v != nil {
+						em[ph.Name()] = v
+					}
+				}
+				lc.OnLoopEdge(x, st, fr, loopID, em, true)
+			}
+			lc.OnLoopHead(x, hs, hf, loopID, pm)
+		}
 		x.marks = append(x.marks, cur)
 		outs := x.execFromHeader(hf, li, hs)
 		x.marks = x.marks[:len(x.marks)-1]
@@ -1156,6 +1188,13 @@ func (x *Exec) execLoopUncached(fr *Frame, li *loopInfo, pred *ssa.BasicBlock, s
 			if o.kind == outBackEdge {
 				x.C.OnBackEdge(x, o.st, o.fr, cur)
 				pi := predIdx(o.from)
+				if lc, ok := x.C.(LoopInvClient); ok && pi >= 0 {
+					nm := map[string]*Term{}
+					for _, ph := range phis {
+						nm[ph.Name()] = x.val(o.fr, ph.Edges[pi])
+					}
+					lc.OnLoopEdge(x, o.st, o.fr, loopID, nm, false)
+				}
 				if pi >= 0 {
 					// a slice carried by a phi is updated like a stored cell
 					x.marks = append(x.marks, cur)
